@@ -3035,7 +3035,10 @@ pub fn check_all(out: &RunOut) -> Vec<Violation> {
         let mut v = out.pre_violations.clone();
         if let Some(p) = &out.panic {
             let loc = p.rsplit(" @ ").next().unwrap_or("").to_string();
-            v.push(Violation { prop: "C02", key: format!("C02/panic/codec/{loc}"), msg: format!("panic: {p}"), at_seq: 0 });
+            // (a C10 run feeds a valid, unmutated stream: a panic under one of its fragmentations means that cutting
+            // did not give the same packets - C10's own clause; in a C02 run it is C02's no-panic clause)
+            let prop: &'static str = if out.plan.family == "C10" { "C10" } else { "C02" };
+            v.push(Violation { prop, key: format!("{prop}/panic/codec/{loc}"), msg: format!("panic: {p}"), at_seq: 0 });
         }
         return v;
     }
